@@ -289,6 +289,11 @@ func (i *IGMP) DecodeFromBytes(data []byte, df gopacket.DecodeFeedback) error {
 		return errors.New("IGMP packet is too small")
 	}
 
+	// DecodeFromBytes must totally reset the layer: which fields are assigned below depends
+	// on the message type, and the source / group record lists are appended to.  This struct
+	// is only used for IGMPv3 messages (decodeIGMP creates it with Version 3).
+	*i = IGMP{BaseLayer: BaseLayer{Contents: data}, Version: 3}
+
 	// common IGMP header values between versions 1..3 of IGMP specification..
 	i.Type = IGMPType(data[0])
 
